@@ -439,6 +439,11 @@ CORPUS = [
     (["Rate = 5", "rate = Rate * 2", "rate", "RATE + Rate"], None),
     (["My Rent = 100", "my rent = 200", "My Rent * 2", "MY RENT = my rent + 1", "my Rent"], None),
     (["zeta = 1", "Zeta = 2", "ZETA = 3", "zeta + Zeta + ZETA"], None),
+    # words that merely CONTAIN an operator word or resemble a keyword are ordinary name words
+    (["cost = 3", "cost summary = 40", "cost + 1", "cost summary * 2"], None),
+    (["start = 2", "start timestamp = 100", "start timestamp + start", "rent addition = 5", "rent addition * 2"], None),
+    (["lead time = 3", "lead time * 2", "travel time = lead time + 5", "travel time"], None),
+    (["timestamp = 7", "summary = 1", "timestamp + summary", "multiplying = 2", "multiplying * 3"], None),
 ]
 
 
